@@ -27,7 +27,7 @@ Inductive kw := KwIf | KwThen | KwElsif | KwElse | KwEndIf | KwFor | KwTo | KwBy
   | KwCase | KwOf | KwEndCase.
 Inductive ckind := CkInt | CkTrue | CkFalse | CkStr | CkWStr.
 Inductive dkw := DkVar | DkVarInput | DkVarOutput | DkVarInOut | DkVarExternal | DkEndVar | DkConstant | DkRetain | DkNonRetain
-  | DkREdge | DkFEdge.
+  | DkREdge | DkFEdge | DkType | DkEndType | DkArray.
 Inductive tcl :=
   | CTriv | CId | CConst (k : ckind)
   | CLP | CRP | CComma | CSemi | CAssign | CArrow
